@@ -947,8 +947,34 @@ func (in *Interp) jsonValue(t types.Type, v Value) ([]*Term, bool) {
 	return nil, false
 }
 
+// jsonUnsupportedType reports whether encoding/json rejects values of this type outright
+// (UnsupportedTypeError): functions, channels, complex numbers - also inside exported struct fields.
+func jsonUnsupportedType(t types.Type, depth int) bool {
+	if depth > 4 {
+		return false
+	}
+	switch u := t.Underlying().(type) {
+	case *types.Signature, *types.Chan:
+		return true
+	case *types.Basic:
+		return u.Info()&types.IsComplex != 0
+	case *types.Struct:
+		for i := 0; i < u.NumFields(); i++ {
+			if u.Field(i).Exported() && jsonUnsupportedType(u.Field(i).Type(), depth+1) {
+				return true
+			}
+		}
+	case *types.Pointer:
+		return jsonUnsupportedType(u.Elem(), depth+1)
+	}
+	return false
+}
+
 func iJSONMarshal(in *Interp, fn *ssa.Function, a []Value) Value {
 	iv := a[0].(IfaceV)
+	if iv.t != nil && in.lookupMethod(iv.t, nil, "MarshalJSON") == nil && in.lookupMethod(iv.t, nil, "MarshalText") == nil && jsonUnsupportedType(iv.t, 0) {
+		return TupleV{SliceV{}, in.newError(in.mkStr("json: unsupported type"))}
+	}
 	bs, ok := in.jsonValue(iv.t, iv.v)
 	if !ok {
 		in.unsupported("json.Marshal of " + fmt.Sprint(iv.t))
